@@ -333,7 +333,8 @@ def check_strategy_dtors(ctx, fb, rs):
 
 
 def run(ctx):
-    fbs = ctx.facts(['K17', 'K20'], kinds=('probe', 'lib'), tests=r'/test/')
+    fbs = ctx.facts(['K17', 'K20'], kinds=('probe', 'lib'), tests=r'/test/',
+                    quick_tests=r'unit/async/(future|future_functor|task)\.cpp|unit/util/intrusive_ptr\.cpp')
     ro = ctx.rule('R-DONEORDER', 'teardown order in Core::Done', minimum=200)
     rf = ctx.rule('R-FUNCTOR', 'the stored functor is destroyed exactly once per completion', minimum=200)
     rb = ctx.rule('R-REFBAL', 'predecessor / inner-core reference balance per Core instantiation', minimum=200)
